@@ -33,11 +33,11 @@ ASSUMPTIONS = [
     "of the batch solution; bugs in the recurrences show up at >= 1e-5",
     "numba is not installed: _solve_real_unc_inner_loop runs as plain Python",
 ]
-MIN_NONTRIVIAL = {"quick": 1000, "thorough": 15000}
+MIN_NONTRIVIAL = {"quick": 5000, "thorough": 200000}
 TIMEOUT = {"quick": 900, "thorough": 7200}
 
-NSLICE = {"quick": 2, "thorough": 16}
-NHIST = {"quick": 130, "thorough": 260}     # histories per (kind, slice)
+NSLICE = {"quick": 3, "thorough": 16}
+NHIST = {"quick": 500, "thorough": 4000}     # histories per (kind, slice)
 LAYOUTS = [("rb", "el", "rf"), ("el", "rb", "rf"), ("rf", "rb", "el"),
            ("rf", "el", "rb")]
 PATTERNS = ["resend", "jumpback", "addon", "addon-burst", "addon-after-jumpback",
